@@ -265,6 +265,40 @@ def graph_deepcopy_fails(case):
     return None
 
 
+def graph_deepcopy_sweep_fails(case):
+    """copy.deepcopy of an EVALUATED graph with view nodes (x[0], A.T): a reverse sweep on the copy -- without a forward evaluation
+    of the copy first -- returns what the same sweep returns on the original"""
+    import copy
+    x1 = np.array(case['x1'], dtype=float)
+    W = np.array(case['W'], dtype=float)
+    for prog in ('getitem', 'transpose'):
+        cg = algopy.CGraph()
+        if prog == 'getitem':
+            fx = algopy.Function(UTPM(np.array(case['rec'], dtype=float).reshape(1, 1, 3)))
+            fy = fx[0] * algopy.sum(fx * fx)
+            pt = UTPM(x1.reshape(1, 1, 3).copy())
+        else:
+            fx = algopy.Function(UTPM(np.array(case['rec'] * 2, dtype=float).reshape(1, 1, 2, 3)))
+            fy = algopy.sum(fx.T * W)
+            pt = UTPM(np.concatenate([x1, x1 * 0.5]).reshape(1, 1, 2, 3).copy())
+        cg.trace_off()
+        cg.independentFunctionList = [fx]
+        cg.dependentFunctionList = [fy]
+        try:
+            cg.pushforward([pt])
+            cg.pullback([UTPM(np.ones((1, 1)))])
+            want = np.array(fx.xbar.data)
+            cg2 = copy.deepcopy(cg)
+            cg2.pullback([UTPM(np.ones((1, 1)))])
+            got = np.array(cg2.independentFunctionList[0].xbar.data)
+        except Exception as ex:
+            return 'graph-deepcopy-sweep-exception: %s' % (type(ex).__name__ + ':' + str(ex)[:80])
+        if got.shape != want.shape or not np.allclose(got, want, rtol=1e-12, atol=1e-13):
+            return 'graph-deepcopy-sweep: the reverse sweep on a deep copy of an evaluated graph (%s view node) gives %s, the original %s' % (
+                prog, got.ravel().tolist()[:6], want.ravel().tolist()[:6])
+    return None
+
+
 def graph_deepcopy_workarray_fails(case):
     """a graph with a hand-wrapped work array, evaluated forward at x1, deep-copied, the COPY evaluated at x2: a reverse sweep on
     the original (no new forward evaluation) still answers for x1 -- the copy has its own work array"""
@@ -489,6 +523,8 @@ def replay_case(ctx, case):
         return graph_deepcopy_fails(case)
     if case.get('op') == 'graph-deepcopy-workarray':
         return graph_deepcopy_workarray_fails(case)
+    if case.get('op') == 'graph-deepcopy-sweep':
+        return graph_deepcopy_sweep_fails(case)
     if case.get('op') == 'workarray-model':
         return workarray_model_mismatch(ctx, case)
     return history_fails(case)
@@ -522,6 +558,13 @@ def run(ctx):
             f = workarray_ndarray_fails(case)
             if f:
                 ctx.report(case, 'failure', f)
+    for i in range(2):
+        case = {'op': 'graph-deepcopy-sweep', 'rec': rand_coeffs(rng, (3,), -2, 2).tolist(), 'x1': rand_coeffs(rng, (3,), -2, 2) + 0.125, 'W': rand_coeffs(rng, (3, 2), -2, 2) + 0.125}
+        ctx.evaluations += 1
+        ctx.count('graph-deepcopy-sweep')
+        f = graph_deepcopy_sweep_fails(case)
+        if f:
+            ctx.report(case, 'failure', f)
     for i in range(2):
         case = {'op': 'graph-deepcopy-workarray', 'rec': rand_coeffs(rng, (2,), -2, 2), 'x1': rand_coeffs(rng, (2,), -2, 2) + 0.125, 'x2': rand_coeffs(rng, (2,), -2, 2) - 0.375}
         ctx.evaluations += 1
